@@ -19,10 +19,10 @@ func VerifC01_EqForm() {
 	flag := opt.Bool("flag", false)
 	opt.NewCommand("cmd", "")
 	vPhase("run")
-	// thorough tier: arbitrary surrounding tokens (a positional before, a sibling option after)
+	// surrounding tokens: a positional before, a sibling option or a positional after
 	args := []string{"--name=" + v}
 	var around []string
-	if vThorough() {
+	{
 		switch vInt("around", 0, 3) {
 		case 1:
 			p := positional("before", "cmd")
